@@ -259,7 +259,7 @@ func check(t run.TB, c Case) outcome {
 	var cr lib.Res
 	t0 := time.Now()
 	if msg := timed("Check", 20*time.Second, func() { cr = lib.Check(s) }); msg != "" {
-		run.Fail(t, chk, c, "%s", msg)
+		run.FailAndExit(chk, c, "%s", msg)
 	}
 	if d := time.Since(t0); d > 500*time.Millisecond {
 		run.Note("slow Check (%v) for %s %v", d, c.Spec.Schema, c.Spec.Types)
@@ -366,7 +366,7 @@ func check(t run.TB, c Case) outcome {
 			lib.Example(s)
 		})
 		if msg != "" {
-			run.Fail(t, chk, c, "accepted graph: %s", msg)
+			run.FailAndExit(chk, c, "accepted graph: %s", msg)
 		}
 	}
 	return o
@@ -507,14 +507,16 @@ func checkLayered(t run.TB, c LayeredCase) {
 	}
 	var cr, vr, er lib.Res
 	var ex []byte
+	// (a call that does not return keeps its goroutine busy, and every attempt to make the case
+	// smaller would wait for it again: the process is ended with the case recorded)
 	if msg := timed("Check", 20*time.Second, func() { cr = lib.Check(s) }); msg != "" {
-		run.Fail(t, chkLayered, c, "%s (an acyclic graph of %d types)", msg, len(c.Spec.Types))
+		run.FailAndExit(chkLayered, c, "%s (an acyclic graph of %d types)", msg, len(c.Spec.Types))
 	}
 	if !cr.OK {
 		run.Fail(t, chkLayered, c, "Check refuses an acyclic graph whose types are all defined: %v", cr)
 	}
 	if msg := timed("Validate", 20*time.Second, func() { vr = lib.Validate(s, []byte(c.Doc)) }); msg != "" {
-		run.Fail(t, chkLayered, c, "%s (an acyclic graph of %d types, document %s)", msg, len(c.Spec.Types), c.Doc)
+		run.FailAndExit(chkLayered, c, "%s (an acyclic graph of %d types, document %s)", msg, len(c.Spec.Types), c.Doc)
 	}
 	if vr.Panic != "" {
 		run.Fail(t, chkLayered, c, "Validate panicked: %v", vr)
@@ -605,7 +607,7 @@ func TestLayeredGraphs(t *testing.T) {
 			}
 			var cr lib.Res
 			if msg := timed("Check", 20*time.Second, func() { cr = lib.Check(s) }); msg != "" {
-				run.Fail(t, chkLayered, c, "%s (an acyclic graph of %d types)", msg, len(sp.Types))
+				run.FailAndExit(chkLayered, c, "%s (an acyclic graph of %d types)", msg, len(sp.Types))
 			}
 			if !cr.OK {
 				run.Fail(t, chkLayered, c, "Check refuses an acyclic graph whose types are all defined: %v", cr)
@@ -681,7 +683,7 @@ func checkNames(t run.TB, c NamesCase) {
 	must(r.AddType("@X", x2))
 	var cr lib.Res
 	if msg := timed("Check", 20*time.Second, func() { cr = lib.Check(r) }); msg != "" {
-		run.Fail(t, chkNames, c, "%s", msg)
+		run.FailAndExit(chkNames, c, "%s", msg)
 	}
 	if cr.Panic != "" {
 		run.Fail(t, chkNames, c, "Check panicked: %s", cr.Panic)
